@@ -131,15 +131,42 @@ def run(ctx, rep):
     okf = len(wr) == 1
     if okf:
         f, bb, t = wr[0]
-        # offset argument: a captured/iterated `start` (second tuple component of name_dests items), data: the decrypted blob
-        off = flow.backward_slice(f, op_place(t["args"][2]))
-        nm = set()
-        for l in off["locals"]:
-            nm |= set(f.local_names().get(l, []))
-        for fld in [e for e in []]:
-            pass
-        nm |= {upvar_name(f, i).split("__")[-1] for i in range(12) if upvar_name(f, i)} & {"start"}
-        okf = "start" in nm
+        # the offset and the file (path index) of a write belong to the same (file_idx, file_start) pair of the plan: both derive
+        # from the same iterated item (one Iterator::next call site, in this body or - through the closure's captures - in the
+        # body that spawns it). Decided from provenance, not from variable names.
+        def provenance(F, operand):
+            """(call sites of Iterator::next the operand derives from, body they are in)"""
+            pl = op_place(operand)
+            if pl is None:
+                return set()
+            sl = flow.backward_slice(F, pl)
+            out = {(F.path, cs) for cs in sl["call_sites"] if "callee" in F.term(cs) and re.search(r"Iterator(>)?::next$", callee(F.term(cs)) + " " + callee_decl(F.term(cs)))}
+            e = flow.expr_of(F, operand)
+            if F.is_closure():
+                # captured values: follow the capture into the creating body
+                ups = {int(m_) for m_ in re.findall(r"\('path', \('arg', 1\), \['(\d+)'", repr(e))} | {fl_ for fl_ in () }
+                for l_ in sl["locals"]:
+                    for d_ in F.defs().get(l_, []):
+                        if d_[0] == "stmt" and d_[4][0] in ("use", "ref") :
+                            pp = op_place(d_[4][1]) if d_[4][0] == "use" else d_[4][1]
+                            if pp and pp[0] == 1:
+                                for el in pp[1:]:
+                                    if isinstance(el, list) and el[0] == "f":
+                                        ups.add(el[1])
+                                        break
+                for P in fam:
+                    for blk in P.blocks:
+                        for s_ in blk["s"]:
+                            if s_[0] == "=" and s_[2][0] == "agg" and s_[2][1][0] == "closure" and s_[2][1][1] == F.path:
+                                for k_ in ups:
+                                    if k_ < len(s_[2][2]):
+                                        out |= provenance(P, s_[2][2][k_])
+            return out
+        po = provenance(f, t["args"][2])
+        pp_ = provenance(f, t["args"][1])
+        # every item the path derives from (inner and outer loop) also feeds the offset: a value of the outer loop only (a size,
+        # a counter) is not the recorded file offset
+        okf = bool(pp_) and pp_ <= po
     rep.check("C01.f", "write-at-recorded-offset", okf, where=RC.loc(), what="restore_contents writes each blob at the file offset recorded for it in the restore plan")
     rd = [(f, bb, t) for f in fam for bb, t in f.calls() if "callee" in t and re.search(r"read_encrypted_from_partial$", callee(t))]
     oks = False
